@@ -100,6 +100,15 @@ func oracle(c *Case) error {
 	curGB := append([]string(nil), c.GroupBy...)
 	snapExpr := fix.ToUpdog(curExpr)
 	snapGB := append([]string(nil), curGB...)
+	// every result handed out is kept by the caller and looked at again after
+	// each later execution: executing the Query again (on this or another
+	// index, before or after an edit) must not change a result already returned
+	type kept struct {
+		step int
+		res  *updog.Result
+		snap model.Result
+	}
+	var keptResults []kept
 	for step, k := range c.Schedule {
 		if step < len(c.Edits) && step > 0 {
 			// the caller edits its Query value in place; the model follows
@@ -153,6 +162,14 @@ func oracle(c *Case) error {
 		if cerr := fix.CompareOutcome(datas[k], curExpr, curGB, res, err); cerr != nil {
 			return fmt.Errorf("execution %d on index %d: %v", step, k, cerr)
 		}
+		for _, kr := range keptResults {
+			if now := fix.FromResult(kr.res); !reflect.DeepEqual(now, kr.snap) {
+				return fmt.Errorf("the result returned by execution %d was changed by execution %d (index %d): it was %+v, now it reads %+v", kr.step, step, k, clipv(kr.snap), clipv(now))
+			}
+		}
+		if err == nil && res != nil {
+			keptResults = append(keptResults, kept{step, res, fix.FromResult(res)})
+		}
 		if !fix.SameExpr(q.Expr, snapExpr) {
 			return fmt.Errorf("after execution %d the Query's Expr changed: %s", step, q.Expr.String())
 		}
@@ -161,6 +178,14 @@ func oracle(c *Case) error {
 		}
 	}
 	return nil
+}
+
+func clipv(r model.Result) string {
+	s := fmt.Sprintf("%+v", r)
+	if len(s) > 300 {
+		s = s[:300] + "…"
+	}
+	return s
 }
 
 func short(r *updog.Result) string {
